@@ -112,6 +112,9 @@ inline std::vector<Skel> fixed_skeletons() {
   // two unconnected levelling lines of 2 and 3 heights with repeated observations (the real SVD iteration enters its cancellation branch here)
   s.push_back({"two-lines-2-3", levelling(5, {{3,4},{4,5},{2,1},{1,2},{1,2},{5,4}}, {})});
   s.push_back({"three-lines-2-2-3", levelling(7, {{1,2},{3,4},{5,6},{6,7},{2,1},{4,3},{7,5},{1,2}}, {})});
+  // fewer observations than unknowns (free chains without redundancy): the design matrix is wider than tall
+  s.push_back({"lev4-chain-wide", levelling(4, {{1,2},{2,3},{3,4}}, {})});
+  s.push_back({"lev5-two-chains-wide", levelling(5, {{1,2},{2,3},{4,5}}, {})});
   s.push_back({"dep-cols", from_rows(6, 4, {{1,0,1,2},{0,1,2,1},{1,1,3,3},{2,-1,0,3},{1,2,5,4},{0,3,6,3}})});  // c3=c1+2c2, c4=2c1+c2
   s.push_back({"empty-row", from_rows(5, 3, {{1,-1,0},{0,0,0},{0,1,-1},{1,0,1},{2,1,0}})});
   s.push_back({"single-col", from_rows(3, 1, {{1},{2},{-1}})});
